@@ -2,7 +2,7 @@
 import importlib
 import json
 
-from symcheck.env import drive, dump, same_json, HarnessError
+from symcheck.env import drive, dump, same_json, HarnessError, Ticks as _Ticks
 from harness.stdio_fake import make_client
 
 BATCH = importlib.import_module("chuk_mcp.protocol.features.batching")
@@ -242,3 +242,52 @@ def repeat(vsel, sels1, sels2, sels3):
         if r != "ok":
             return "batch-%d:" % (k + 1) + r
     return "ok"
+
+
+HS_VERSIONS = ["2025-06-18", "2025-03-26", "2024-11-05", "2025-11-25", "2025-06-19", "2025-06-17", "2031-01-01", "2019-12-31"]
+
+
+def pick_hs(i):
+    if i == 0:
+        return HS_VERSIONS[0]
+    if i == 1:
+        return HS_VERSIONS[1]
+    if i == 2:
+        return HS_VERSIONS[2]
+    if i == 3:
+        return HS_VERSIONS[3]
+    if i == 4:
+        return HS_VERSIONS[4]
+    if i == 5:
+        return HS_VERSIONS[5]
+    if i == 6:
+        return HS_VERSIONS[6]
+    return HS_VERSIONS[7]
+
+
+def after_handshake(vsel, first_sel, sels):
+    """the version reaches the transport through a real handshake (send_initialize_with_client_tracking on this client,
+    the caller offering exactly that version - listed by the library or not); optionally a second handshake changes it"""
+    from harness import sm
+    import sys as _sys
+    INIT = _sys.modules["chuk_mcp.protocol.messages.initialize.send_messages"]
+
+    c = make_client()
+
+    def handshake(v):
+        class L(list):
+            def __getitem__(self, n):
+                t, _ = list.__getitem__(self, n)
+                rid = sm.dump(sm.ENV.wire[0][1])["id"]
+                return (t, sm.JSONRPCMessage(jsonrpc="2.0", id=rid, result={"protocolVersion": v, "capabilities": {}, "serverInfo": {"name": "s", "version": "1"}}))
+
+        out = sm.run_stub(L([(1, None)]), lambda r, w: INIT.send_initialize_with_client_tracking(r, w, client=c, timeout=_Ticks(50), supported_versions=[v]))
+        return out.kind
+
+    if first_sel >= 0:
+        if handshake(pick_hs(first_sel)) != "result":
+            return "first-handshake-failed"
+    v = pick_hs(vsel)
+    if handshake(v) != "result":
+        return "handshake-failed"
+    return _check_batch(c, sels, v, len(c._incoming_send.items), len(c._notify_send.items), len(c.process.stdin.chunks))
